@@ -124,6 +124,40 @@ theorem tampered_dropped_strict (L : A.Laws) (re : Bool) (cid a x1 x2 : Nat) (no
   ⟨fun h hbad => walk_fwd_tampered_strict L re cid x1 x2 nodes keys h c hcid hpt hbad a c',
    fun h hbad => walk_bwd_tampered_strict L cid x1 x2 nodes keys h c hcid hpt hbad a c'⟩
 
+/-- **A byte altered in flight.**  (Uses the integrity law `tamper1`, which — unlike `dec_iff` — is not a tautology: the toy
+    instance has to carry a checksum to satisfy it.)  A body that differs in exactly one byte from a genuine layered
+    ciphertext for the hops `k :: ks` is not genuine for them … -/
+theorem altered_byte_not_genuine (L : A.Laws) (d : Dir) (k : A.Key) (ks : List A.Key) (kn0 : List (A.Key × Nat)) (m0 body : Bytes)
+    (hk0 : kn0.map Prod.fst = k :: ks) (halt : hdist body (encLayers A d kn0 m0) = 1)
+    (kn : List (A.Key × Nat)) (m : Bytes) (hk : kn.map Prod.fst = k :: ks) : body ≠ encLayers A d kn m := by
+  match kn0, hk0, kn, hk with
+  | (k0, n0) :: kn0', hk0, (k1, n1) :: kn', hk =>
+    have e0 : k0 = k := by simpa using (List.cons.inj hk0).1
+    have e1 : k1 = k := by simpa using (List.cons.inj hk).1
+    rw [e0] at halt; rw [e1]
+    intro he
+    have hnone := L.tamper1 k d n0 _ body (by simpa [encLayers] using halt)
+    have hsome : A.dec k d body = some (encLayers A d kn' m) := (L.dec_iff _ _ _ _).2 ⟨n1, by simpa [encLayers] using he⟩
+    rw [hnone] at hsome; cases hsome
+
+/-- … so, on a forward path and on a backward path alike, a genuine cell (plaintext flag not set) with ANY ONE BYTE OF ITS BODY
+    altered on ANY link is delivered nowhere.  (Header bytes: circuit id → routed elsewhere or unknown, covered by the
+    per-node theorems; plaintext flag → `only_create_created_plain`; relay_early flag: not authenticated, see level_note.) -/
+theorem altered_byte_dropped (L : A.Laws) (re : Bool) (cid a x1 x2 : Nat) (nodes : List (Node A)) (k : A.Key) (ks : List A.Key)
+    (kn0 : List (A.Key × Nat)) (m0 : Bytes) (c c' : Cell) (hcid : c.cid = cid) (hpt : c.plaintext = false)
+    (hk0 : kn0.map Prod.fst = k :: ks) :
+    (FwdChain re cid nodes (k :: ks) x1 x2 → hdist c.msg (encLayers A .fwd kn0 m0) = 1 → (walk nodes c).2 ≠ .delivered a c') ∧
+    (BwdChain cid nodes (k :: ks) x1 x2 → hdist c.msg (encLayers A .bwd kn0 m0) = 1 → (walk nodes c).2 ≠ .delivered a c') :=
+  ⟨fun h halt => (tampered_dropped_strict L re cid a x1 x2 nodes (k :: ks) c c' hcid hpt).1 h
+      (fun kn m hk => altered_byte_not_genuine L .fwd k ks kn0 m0 c.msg hk0 halt kn m hk),
+   fun h halt => (tampered_dropped_strict L re cid a x1 x2 nodes (k :: ks) c c' hcid hpt).2 h
+      (fun kn m hk => altered_byte_not_genuine L .bwd k ks kn0 m0 c.msg hk0 halt kn m hk)⟩
+
+/-- the reviewer's witness: the last body byte of a genuine cell altered in flight — with the checksum-carrying toy the relay
+    of the example circuit now refuses it -/
+example : (walk [Ex.r, Ex.x] ⟨10, false, true, (encLayers toy .fwd Ex.kn2 Ex.msg).dropLast ++ [6]⟩).2
+    = .dropped 1 .decryptFail := by decide
+
 /-- **Splices.**  A body whose outermost layer was made under another key (a cell of another circuit) or for the other
     direction (a reflected cell) is not genuine for the hop list `k :: ks`, so the two theorems above apply to it. -/
 theorem spliced_not_genuine (L : A.Laws) (d d' : Dir) (k k' : A.Key) (ks : List A.Key) (n : Nat) (x : Bytes)
